@@ -8,11 +8,14 @@ from concurrent.futures import ProcessPoolExecutor
 from lib import common, play, stories
 
 LEVEL = "proof"
-THEOREM_MODULES = ["Proofs.C10"]
+THEOREM_MODULES = ["Proofs.C10", "Proofs.C10Frame"]
 REQUIRED_THEOREMS = [
     "Ink.C10.switch_parks_current", "Ink.C10.switch_back_identity", "Ink.C10.switch_preserves_wf",
     "Ink.C10.switch_same_flow", "Ink.C10.runM_namedFlows", "Ink.C10.continueSingleStep_namedFlows",
     "Ink.C10.stepLoop_namedFlows", "Ink.C10.remove_other_keeps_current", "Ink.C10.flowFor_name",
+    "Ink.C10.ops_keep_parked_flows", "Ink.C10.applyOp_snapshotAgrees", "Ink.C10.other_flow_untouched",
+    "Ink.C10.other_flow_untouched_public", "Ink.C10.flowOf_stepsIn", "Ink.C10.interleaving_flow_projection",
+    "Ink.C10.interleaving_with_readChoices", "Ink.C10.applyOp_quiet",
 ]
 RULE = ("a case = one program made of mutually disjoint flow scripts x one interleaving of the flows' host operations "
         "(all interleavings of two flows with up to 3+3 operations in the quick tier), optionally with save/load and "
@@ -23,8 +26,11 @@ ASSUMPTIONS = ["flow scripts are disjoint in variables and knots and do not read
 EXPLANATION = ("Theorems over the flow map of the model: a switch parks the current flow untouched and touches no other "
                "parked flow; switching away and back is the identity on the whole core; the continue loop (all steps, "
                "snapshots, rewinds) never changes a parked flow — a step cannot even see the parked flows (type-level "
-               "frame). interleaving_eq_solo itself is NOT proved (it needs a footprint analysis of steps); it is "
-               "decided by the exhaustive-interleaving oracle and the tie. PARTIAL for that sentence.")
+               "frame); for ANY list of host operations in another flow, switching there, running them and switching "
+               "back leaves a flow's record (call stack, output, choices) exactly as it was (other_flow_untouched, over "
+               "a Hoare logic for the whole step monad); the interleaving corollary holds under the explicit proviso "
+               "that the other flow's steps leave the shared part (globals, counts, seed) alone. That proviso is what "
+               "the generator guarantees and the exhaustive-interleaving oracle checks.")
 
 
 def flow_ops(entry, n, rng):
